@@ -263,6 +263,43 @@ def run_cli_directed(ctx):
             e2e.write_files(d, files)
             for extra in ([], ['-S', 'all'], ['-v'], ['-S', 'fail', '-o', 'yaml'], ['-d', 'd.yaml']):
                 jobs.append({'args': ['validate', '-r', 'r.guard', '-d', 'd.json'] + extra, 'cwd': d}); meta.append(('console-cfn %s' % dname, jobs[-1]['args'], files))
+    # every short-form tag the source tables name (rules/mod.rs, read by the translator; the reviewed copy when that fails),
+    # some the tables do not name, with a scalar and a sequence payload, as data of validate, as an input-parameter file and
+    # as the input of a test spec: the two tag sets and the short->long mapping must stay in sync (a miss is unreachable!())
+    try:
+        from .. import tables as _tables
+        _pairs, _sets = _tables.tag_tables()
+        tag_names = sorted(set(_sets['SINGLE_VALUE_FUNC_REF']) | set(_sets['SEQUENCE_VALUE_FUNC_REF']) | set(a for a, b in _pairs))
+    except Exception:
+        _j = json.load(open(os.path.join(VERIF, 'inventory', 'tag_tables.json')))
+        tag_names = sorted(set(str(x) for x in re.findall(r'[A-Z][A-Za-z]+', json.dumps(_j))))
+    tag_names += ['Cidr', 'Length', 'ToJsonString', 'Unknown', 'ref', 'Fn::Sub']
+    for t in tag_names:
+        for payload in ('!%s [a, b]' % t, '!%s a.b' % t, '!%s {k: v}' % t, '!%s' % t):
+            d = os.path.join(ctx.wd, 'cli%d' % len(jobs))
+            ytext = 'x:\n  v: %s\ny: 1\n' % payload
+            spec = '- name: c\n  input:\n    x:\n      v: %s\n  expectations:\n    rules:\n      t: PASS\n' % payload
+            files = {'r.guard': 'rule t {\n  x exists\n}\n', 'd.yaml': ytext, 'p.yaml': 'z:\n  w: %s\n' % payload, 'spec.yaml': spec}
+            e2e.write_files(d, files)
+            for args in (['validate', '-r', 'r.guard', '-d', 'd.yaml'], ['validate', '-r', 'r.guard', '-d', 'd.yaml', '-i', 'p.yaml', '--structured', '-o', 'json', '-S', 'none'],
+                         ['test', '-r', 'r.guard', '-t', 'spec.yaml'], ['test', '-r', 'r.guard', '-t', 'spec.yaml', '-o', 'json']):
+                jobs.append({'args': args, 'cwd': d}); meta.append(('tag %s' % payload, args, files))
+    # numbers at and beyond the edges of i64 / u64 / f64 in every place a document is read: data and parameter files (libyaml
+    # loader), test-spec inputs (serde_yaml / serde_json), strings given to json_parse and parse_int / parse_float
+    edge = ['9223372036854775807', '9223372036854775808', '18446744073709551615', '18446744073709551616', '-9223372036854775808',
+            '-9223372036854775809', '1e400', '-1e400', '1.7976931348623157e308', '5e-324', '0.1e-400', '123456789012345678901234567890']
+    for num in edge:
+        d = os.path.join(ctx.wd, 'cli%d' % len(jobs))
+        files = {'r.guard': 'let j = json_parse(s)\nlet a = parse_int(s2)\nlet b = parse_float(s2)\nrule t {\n  n exists\n  %j.n exists\n}\nrule u {\n  %a exists or %b exists\n}\n',
+                 'd.json': '{"n": %s, "l": [%s], "s": "{\\"n\\": %s}", "s2": "%s"}' % (num, num, num, num),
+                 'd.yaml': 'n: %s\nl: [%s]\ns: \'{"n": %s}\'\ns2: "%s"\n' % (num, num, num, num),
+                 'spec.json': '[{"name": "c", "input": {"n": %s, "s": "{\\"n\\": %s}", "s2": "%s"}, "expectations": {"rules": {"t": "PASS"}}}]' % (num, num, num),
+                 'spec.yaml': '- name: c\n  input:\n    n: %s\n    s: \'{"n": %s}\'\n    s2: "%s"\n  expectations:\n    rules:\n      t: PASS\n' % (num, num, num)}
+        e2e.write_files(d, files)
+        for args in (['validate', '-r', 'r.guard', '-d', 'd.json'], ['validate', '-r', 'r.guard', '-d', 'd.yaml', '--structured', '-o', 'json', '-S', 'none'],
+                     ['validate', '-r', 'r.guard', '-d', 'd.json', '-i', 'd.yaml'],
+                     ['test', '-r', 'r.guard', '-t', 'spec.json'], ['test', '-r', 'r.guard', '-t', 'spec.yaml', '-o', 'junit'], ['rulegen', '-t', 'd.json']):
+            jobs.append({'args': args, 'cwd': d}); meta.append(('edge number %s' % num, args, files))
     n = 0
     for (what, args, files), (code, so, se) in zip(meta, e2e.run_many(jobs, timeout=30)):
         n += 1
